@@ -84,6 +84,9 @@ def run(ctx):
     for i, a in enumerate(spaces.all_base("3")):
         pfx = core.PREFIX["3"][(i + ctx.seed) % 2]
         cases.append(("3", pfx, a, core.render("3", a, prefix=pfx)))
+    from .. import conc
+    conc.flag_variants(ctx, [["C", c[0], c[3]] for c in cases[:: max(1, len(cases) // ctx.n(200, 2000))] if core.sendable(c[3])], "sub-vectors")
+    conc.pickle_across(ctx, [(c[0], c[3]) for c in cases[:: max(1, len(cases) // 40)]], "sub-vectors")
     ctx.count(len(cases))
     ctx.sample({"vector": cases[0][3]})
     for ver, pfx, a, s in cases:
